@@ -262,12 +262,12 @@ func exhaustiveC06(thorough bool, emit func(C06Case) bool) {
 
 // tinyInputs: inputs short enough to enumerate every partition into successive reads.
 var tinyInputs = map[string][]string{
-	"fasta":  {">a\nAC\n", ">\n\n", ">a\r\nA\r\nC", "AC\n>b\nG", ">a\n\n>b\nT\n"},
-	"fastq":  {"@a\nA\n+\nI\n", "@\n\n+\n\n", "@a\nA\n+\n", "@a\r\nA\r\n+\r\nI", "@a\nAC\n+\nI\n"},
-	"sam":    {"q\t0\tr\n", "@a\n@b\r\n", "\n\nq\n", "q\t0\tr\t1\t2\tM\t=\t4\t5\tA\tI\n", "@h\nq\t0\tr\t1\t2\tM\t=\t4\t5\tA\tI"},
-	"samh":   {"@a\n@b\r\n", "@\nq\n", "q\t0\tr\t1\t2\tM\t=\t4\t5\tA\tI\n"},
-	"bed":    {"c\t1\t2\n", "c\t1\t2\r\n", "#x\nc\t1\t2", "c\t1\n", "c\t1\t2\nd\t3\t4", "c\t1\t2\tn\t5\t+\n"},
-	"newick": {"(a,b)c;", "a;b;c;", "(a,b", "'a b';", "a:1;\nb;", "(a:1,b)c:2;", "'a''b';x;"},
+	"fasta":  {">a\nAC\n", ">\n\n", ">a\r\nA\r\nC", "AC\n>b\nG", ">a\n\n>b\nT\n", "\xef\xbb\xbf>a\nA\n", ">a\r\n\r\nA\r\n"},
+	"fastq":  {"@a\nA\n+\nI\n", "@\n\n+\n\n", "@a\nA\n+\n", "@a\r\nA\r\n+\r\nI", "@a\nAC\n+\nI\n", "\xef\xbb\xbf@a\nA\n+\nI"},
+	"sam":    {"q\t0\tr\n", "@a\n@b\r\n", "\n\nq\n", "\xef\xbb\xbf@a\nq\n", "@a\r\n\r\n@b\r\n", "\r\n\r\nq\r\n", "q\t0\tr\t1\t2\tM\t=\t4\t5\tA\tI\n", "@h\nq\t0\tr\t1\t2\tM\t=\t4\t5\tA\tI"},
+	"samh":   {"@a\n@b\r\n", "@\nq\n", "@a\r\n\r\n@b\r\n", "\xef\xbb\xbf@a\n", "q\t0\tr\t1\t2\tM\t=\t4\t5\tA\tI\n"},
+	"bed":    {"c\t1\t2\n", "c\t1\t2\r\n", "#x\nc\t1\t2", "c\t1\n", "\xef\xbb\xbfc\t1\t2\n", "\xef\xbb\xbf#x\nc\t1\t2", "\r\n\r\nc\t1\t2", "c\t1\t2\nd\t3\t4", "c\t1\t2\tn\t5\t+\n"},
+	"newick": {"(a,b)c;", "a;b;c;", "(a,b", "'a b';", "a:1;\nb;", "(a\r\n,b\r\n)c;", "a:1\r\n;", "\xef\xbb\xbfa;", "(a:1,b)c:2;", "'a''b';x;"},
 }
 
 func TestC06(t *testing.T) {
